@@ -976,7 +976,8 @@ package xpath
 //@+ && (is(q, *unionQuery) ==> as(q, *unionQuery).iterator == nil)
 //@+ && (is(q, *descendantOverDescendantQuery) ==> as(q, *descendantOverDescendantQuery).level == 0)
 //@+ && (is(q, *mergeQuery) ==> as(q, *mergeQuery).iterator == nil)
-//@ define cloneOK(s, r) = (is(s, *contextQuery) ==> is(r, *contextQuery) && isFresh(r) && as(r, *contextQuery).count == 0)
+//@ define cloneOK(s, r) = (is(s, nopQuery) ==> r == s)
+//@+ && (is(s, *contextQuery) ==> is(r, *contextQuery) && isFresh(r) && as(r, *contextQuery).count == 0)
 //@+ && (is(s, *absoluteQuery) ==> is(r, *absoluteQuery) && isFresh(r) && as(r, *absoluteQuery).count == 0)
 //@+ && (is(s, *ancestorQuery) ==> is(r, *ancestorQuery) && isFresh(r) && as(r, *ancestorQuery).Self == as(s, *ancestorQuery).Self && as(r, *ancestorQuery).Predicate == as(s, *ancestorQuery).Predicate && cloneKid(as(s, *ancestorQuery).Input, as(r, *ancestorQuery).Input) && as(r, *ancestorQuery).iterator == nil && as(r, *ancestorQuery).table == nil)
 //@+ && (is(s, *attributeQuery) ==> is(r, *attributeQuery) && isFresh(r) && as(r, *attributeQuery).Predicate == as(s, *attributeQuery).Predicate && cloneKid(as(s, *attributeQuery).Input, as(r, *attributeQuery).Input) && as(r, *attributeQuery).iterator == nil)
